@@ -376,7 +376,8 @@ class GpRegressor:
             Q = solve_triangular(self.L, (A * K_qx).T, lower=True)
 
             # calculate the mean and covariance
-            mean = A @ (K_qx * self.alpha).T
+            dm_dx = self.mean.spatial_gradient(pnt[0, :], self.mean_hyperpars)
+            mean = A @ (K_qx * self.alpha).T + dm_dx[:, None]
             covariance = R - (Q.T @ Q)
 
             # store the results for the current point
@@ -410,7 +411,8 @@ class GpRegressor:
             Q = solve_triangular(self.L.T, solve_triangular(self.L, K_qx.T, lower=True))
 
             # calculate the mean and covariance
-            dmu_dx = A @ (K_qx * self.alpha).T
+            dm_dx = self.mean.spatial_gradient(pnt[0, :], self.mean_hyperpars)
+            dmu_dx = A @ (K_qx * self.alpha).T + dm_dx[:, None]
             dV_dx = -2 * (A * K_qx[None, :]) @ Q
 
             # store the results for the current point
